@@ -174,7 +174,7 @@ Proof. intros. unfold enum_str_unser. rewrite (string_mapper_neq v v') by assump
 
 (* ---------- (3) the any schema (checkAndConvert) ---------- *)
 Lemma any_conv_int : forall f k z, int_ok k z ->
-  any_conv (S f) (VInt (TInt k) z) = if z <=? max_i64 then Ok (vi64 z) else Err (perr ERepr).
+  any_conv (S f) (VInt (TInt k) z) = if z <=? max_i64 then Ok (vi64 z) else Err (cerr ERepr).
 Proof.
   intros f k z H. destruct k; cbn [any_conv kind_of kind_of_type underlying int_mapper];
     try (destruct (z <=? max_i64); reflexivity).
@@ -464,7 +464,7 @@ Definition oneof_map (f : nat) (e : env) (types : list (okey * schema)) (ik : bo
 Definition oneof_body (f : nat) (e : env) (types : list (okey * schema)) (ik : bool) (field : string)
     (inlined : bool) (v : gval) : outcome gval :=
   match v with
-  | VNil => Err (perr ERepr)
+  | VNil => Err (cerr ERepr)
   | VMap _ _ kvs => oneof_map f e types ik field inlined kvs
   | _ => Err (cerr ERepr)
   end.
